@@ -1422,6 +1422,7 @@ func entryName(fn *types.Func, target *types.TypeName) string {
 }
 
 type Translation struct {
+	Ckpt         []*CkptChan
 	ExtraEntries []string
 	Deep         []DeepReturn
 	Parts        []*Part
@@ -1437,11 +1438,15 @@ func translate(repo string) (*Translation, error) {
 	for _, t := range targets {
 		paths = append(paths, t.Pkg)
 	}
-	listed, err := goList(repo, paths)
+	listed, err := goList(repo, append(paths, ckptPkg))
 	if err != nil {
 		return nil, err
 	}
-	tr := &Translation{LocID: map[string]int{}, Unknown: map[string]map[string]int{}, Methods: map[string]int{}}
+	ck, err := translateCkpt(repo, listed)
+	if err != nil {
+		return nil, err
+	}
+	tr := &Translation{Ckpt: ck, LocID: map[string]int{}, Unknown: map[string]map[string]int{}, Methods: map[string]int{}}
 	locID := func(l string) int {
 		if id, ok := tr.LocID[l]; ok {
 			return id
@@ -1700,6 +1705,17 @@ func (tr *Translation) writeGen(path string, allowedNow []string) error {
 			}
 		}
 	}
+	sb.WriteString("(* checkpoint manager hand-off table: one row per channel of fileChannels carrying a checkpoint:\n   (id, a live (non-Snapshot()) value is handed over at some call site, number of state-method calls on the carried value in the file goroutine) *)\n")
+	var rows []string
+	for i, ch := range tr.Ckpt {
+		fmt.Fprintf(&sb, "(* %d %s: sender %s; live sites %v; snapshot sites %v; state uses %v *)\n", i, ch.Name, ch.Sender, ch.LiveSites, ch.SnapSites, ch.StateUses)
+		live := "false"
+		if len(ch.LiveSites) > 0 {
+			live = "true"
+		}
+		rows = append(rows, fmt.Sprintf("(%d, %s, %d)", i, live, len(ch.StateUses)))
+	}
+	sb.WriteString("Definition ckpt_table : list (N * bool * N) := [" + strings.Join(rows, "; ") + "].\n\n")
 	sb.WriteString("(* allow-listed parts whose side condition (call sites) the translator confirmed on this tree *)\n")
 	sb.WriteString("Definition allowed_ids : list N := [" + strings.Join(aids, ";") + "].\n")
 	if err := os.MkdirAll(filepath.Dir(path), 0o755); err != nil {
